@@ -188,7 +188,10 @@ func (c *proxyClient) readLoop(ctx context.Context) error {
 	for {
 		rpc, err := c.conn.Read(ctx)
 		if err != nil {
-			c.toServer <- command{id: c.id, client: c, err: err}
+			select {
+			case c.toServer <- command{id: c.id, client: c, err: err}:
+			case <-ctx.Done():
+			}
 			return errors.Wrap(err, "failed to read from connection")
 		}
 
@@ -207,7 +210,10 @@ func (c *proxyClient) writeLoop(ctx context.Context) error {
 
 			err := c.conn.Write(ctx, rpc)
 			if err != nil {
-				c.toServer <- command{id: c.id, client: c, err: err}
+				select {
+				case c.toServer <- command{id: c.id, client: c, err: err}:
+				case <-ctx.Done():
+				}
 				return errors.Wrap(err, "failed to write to connection")
 			}
 		case <-ctx.Done():
@@ -228,7 +234,10 @@ func (c *proxyClient) connect(ctx context.Context, newConnection NewConnection) 
 
 	c.conn, err = newConnection(c.id)
 	if err != nil {
-		c.toServer <- command{id: c.id, client: c, err: err}
+		select {
+		case c.toServer <- command{id: c.id, client: c, err: err}:
+		case <-ctx.Done():
+		}
 		return
 	}
 
